@@ -5,7 +5,7 @@ from ..common import proof_part, report_diffs
 from .c07 import TB, run_scenarios, judge
 
 
-def plan(S, hist, rng, pending, eod):
+def plan(S, hist, rng, pending, eod, bare_commit=False):
     """history over two tokens with max = 2; every commit/cancel is completed by the terminal; when the map
     becomes empty the expected chain is: pending query, reversal of what it reports, end-of-day"""
     sc = cc.Scenario(S, {"max": 2}).start()
@@ -32,8 +32,14 @@ def plan(S, hist, rng, pending, eod):
         r = open_.pop(tok)
         if op == "commit":
             sc.ops.append("commit:%s:5" % th)
-            sc.exchange(S.partial_reversal(r, cfg["cur"], cfg["amount"] - 5, tok), [S.status_info({0x27: 0, 0x04: 5}), S.completion()])
-            ok = "Ok:tid=-,amount=5,trace=-,date=-,time=-"
+            if bare_commit and rng.random() < 0.5:
+                # the terminal completes the commit without any status information: the call is incomplete for the caller,
+                # but the terminal DID complete it — going idle still triggers the clean-up (round-3 seeded change)
+                sc.exchange(S.partial_reversal(r, cfg["cur"], cfg["amount"] - 5, tok), [S.intermediate(), S.completion()])
+                ok = "Err:Zvt:IncompleteData"
+            else:
+                sc.exchange(S.partial_reversal(r, cfg["cur"], cfg["amount"] - 5, tok), [S.status_info({0x27: 0, 0x04: 5}), S.completion()])
+                ok = "Ok:tid=-,amount=5,trace=-,date=-,time=-"
         else:
             sc.ops.append("cancel:" + th)
             sc.exchange(S.preauth_reversal(cfg["cur"], r), [S.completion()])
@@ -75,6 +81,8 @@ def check(run):
             eod = rng.choice(eods) if len(h) > 2 else None
             for e in ([eod] if eod is not None else eods):
                 scs.append(plan(S, h, rng, pending, e))
+                if any(o == "commit" for o, _ in h) and (len(h) <= 2 or rng.random() < 0.3):
+                    scs.append(plan(S, h, rng, pending, e, bare_commit=True))
     cases, mo, io = run_scenarios(run, scs, "c19")
     diffs = judge(run, scs, cases, mo, io,
                   "a completed commit/cancel that leaves no transaction open is followed at once by the pending query, the reversal of the reported "
